@@ -55,7 +55,7 @@ MIN_COUNTERS = {
         "cases": 80000,
         "accepted": 10000,
         "rejected": 30000,
-        "splice_cases": 15000,
+        "splice_cases": 12000,
         "doc_forms_accepted": 250,
         "precedence_pairs_equal": 30,
         "hostile_cases": 235,
@@ -320,6 +320,29 @@ _UNSAFE = re.compile(
     r"os|sys|shutil|pathlib|socket|breakpoint|help|globals|locals|getattr|setattr|delattr|__\w+__|"
     r"Workspace|RoadDirection|Network|fromFile|\w*[Pp]ath\w*|file|write|remove|unlink|system|fork|kill|sleep|time)\b"
 )
+
+
+# programs that always go through the executing layer (errors raised at different phases of compilation)
+FIXED_FULL = [
+    "ego = new Object\n",
+    "ego = new Object\nrequire ego.x >\n",  # parse error
+    "ego = new Object\nx = undefined_name\n",  # run-time error while executing the module
+    "ego = new Object\nrequire undefined_name > 0\n",
+    "monitor Monitor():\n    wait\nego = new Object\nrequire Monitor()\n",  # syntax error raised at run time
+    "monitor Monitor():\n    wait\nego = new Object\nrequire monitor Monitor()\n",
+    "scenario Main():\n    setup:\n        ego = new Object\n        x = undefined_name\n",  # error inside a setup block
+    "scenario Main():\n    setup:\n        ego = new Object\n        require ego.x >\n",
+    "scenario Main():\n    precondition: undefined_name\n    setup:\n        ego = new Object\n",
+    "scenario Sub():\n    setup:\n        x = undefined_name\nscenario Main():\n    setup:\n        ego = new Object\n    compose:\n        do Sub()\n",
+    "behavior B():\n    x: int = 3\n    wait\nego = new Object with behavior B\n",  # compile() failure
+    "class A:\n    foo: self\nego = new A\n",  # compiler-raised syntax error
+    "ego = new Object at 1 @ 2, at 3 @ 4\n",  # specifier error
+    "ego = new Object\nego2 = new Object\n",  # invalid scenario (intersecting objects)
+    "param p = 1\nparam p = undefined_name\n",
+    "ego = new Object\nterminate after undefined_name seconds\n",
+    "x = 1 +\n",
+    "",
+]
 
 
 def side_effect_free(text):
@@ -639,8 +662,9 @@ def run_shard(spec):
             if side_effect_free(prog):
                 full_seeds.append(defs + prog)
     nfull = 0
-    for i, text in enumerate(full_seeds):
-        if i % n != shard or (i // n) % W["full_every"]:
+    full_seeds = [(True, t) for t in FIXED_FULL] + [(False, t) for t in full_seeds]
+    for i, (always, text) in enumerate(full_seeds):
+        if i % n != shard or (not always and (i // n) % W["full_every"]):
             continue
         variants = [("asis", text)]
         toks = mutate.tokens_of(text)
